@@ -1,9 +1,11 @@
 """registry.py — property id -> check function(prop, tier, seed, replay) -> exit code"""
-import props_map, props_ext, props_conv, props_dbg, props_sub, props_c14, props_acc, props_pool, props_arr, props_thr, props_lay, props_cst, props_ded, props_cfg
+import props_map, props_mv, props_ext, props_conv, props_dbg, props_sub, props_c14, props_acc, props_pool, props_arr, props_thr, props_lay, props_cst, props_ded, props_cfg
 
 CHECKS = {}
-for p in ("C01", "C02", "C05", "C07", "C13"):
+for p in ("C01", "C02", "C05"):
     CHECKS[p] = lambda prop, tier, seed, replay: props_map.run_property(prop, tier, seed, replay=replay)
+for p in ("C07", "C13"):
+    CHECKS[p] = lambda prop, tier, seed, replay: props_mv.run_property(prop, tier, seed, replay=replay)
 CHECKS["C06"] = lambda prop, tier, seed, replay: props_ext.run_property(prop, tier, seed, replay=replay)
 CHECKS["C08"] = lambda prop, tier, seed, replay: props_conv.run_property(prop, tier, seed, replay=replay)
 CHECKS["C20"] = lambda prop, tier, seed, replay: props_dbg.run_property(prop, tier, seed, replay=replay)
